@@ -3,6 +3,7 @@
 from __future__ import annotations
 
 import ast
+import re
 
 from ..cfg import CFG, walk_shallow
 from ..facts import MULTISET_PRESERVING, calls_in, field_writes, is_self_call, is_super_call
@@ -25,6 +26,10 @@ RULES = {
     "together, every insertion goes through the one splicing primitive, a present value is unlinked before it is "
     "re-linked, the anchor's successor is read after that unlinking, and exactly four link writes splice the new box - "
     "otherwise len(graph), iteration and node.graph disagree about which nodes the graph holds",
+    "R8": "no aliasing between validation and commit: where a function first checks every element of a caller-supplied "
+    "sequence against a link field (`x.producer() is not None` → reject) and then writes that field per element in a second "
+    "loop (`x._producer = self; x._index = i`), the elements are rejected up front unless pairwise distinct - the check of a "
+    "repeated element was made before its first occurrence was committed, and its index link can name one position only",
     "R7": "per-occurrence accounting: the ownership hooks (_set_graph / _maybe_unset_graph) count occurrences, so a hook call is "
     "never filtered by a test on the element it is applied to (membership in the other sequence, identity with another "
     "element …): between the hook call and its function no `if` mentions the hook's argument, isinstance dispatch excepted - "
@@ -33,7 +38,7 @@ RULES = {
     "public mutator, no write to a producer link, output index, use list, ownership flag, owning graph, node input/output "
     "tuple or node list precedes a point that can still reject - 'whether the individual calls succeed or raise'",
 }
-FLOORS = {"R1": 30, "R1b": 4, "R2": 70, "R3": 10, "R4": 4, "R5": 8, "R6": 40, "R7": 12}
+FLOORS = {"R1": 30, "R1b": 4, "R2": 70, "R3": 10, "R4": 4, "R5": 8, "R6": 40, "R7": 12, "R8": 1}
 EXPLANATION = (
     "Enumerates every method of collections.UserList/UserDict (parsed from the interpreter's own "
     "source) that writes self.data and checks how GraphInputs/GraphOutputs/GraphInitializers resolve "
@@ -927,7 +932,66 @@ def rule_r7(ctx, rule="R7", consequence=""):
     ctx.require(n >= 12, f"only {n} ownership-hook call sites found in _graph_containers")
 
 
+def _loop_var_and_seq(lp: ast.For):
+    """(element variable, text of the iterated sequence) for `for x in S` / `for i, x in enumerate(S)`."""
+    it, tg = lp.iter, lp.target
+    if isinstance(it, ast.Call) and dotted_of(it.func) == "enumerate" and it.args and isinstance(tg, ast.Tuple) and len(tg.elts) == 2:
+        it, tg = it.args[0], tg.elts[1]
+    if isinstance(tg, ast.Name):
+        return tg.id, norm(it)
+    return None, None
+
+
+def rule_r8(ctx):
+    n = 0
+    for mn in ("onnx_ir._core", "onnx_ir._graph_containers", "onnx_ir._convenience"):
+        m = ctx.repo.modules[mn]
+        for f in m.all_funcs:
+            if isinstance(f.node, ast.Lambda):
+                continue
+            loops = [x for x in own_nodes(f.node) if isinstance(x, ast.For)]
+            for l2 in loops:
+                v2, s2 = _loop_var_and_seq(l2)
+                if v2 is None:
+                    continue
+                written = {t.attr.lstrip("_") for st in l2.body for x in ast.walk(st) if isinstance(x, (ast.Assign, ast.AugAssign))
+                           for t in (x.targets if isinstance(x, ast.Assign) else [x.target])
+                           if isinstance(t, ast.Attribute) and isinstance(t.value, ast.Name) and t.value.id == v2}
+                if not written:
+                    continue
+                for l1 in loops:
+                    if l1 is l2 or l1.lineno >= l2.lineno:
+                        continue
+                    v1, s1 = _loop_var_and_seq(l1)
+                    if v1 is None or s1 != s2:
+                        continue
+                    read = set()
+                    for i in (x for st in l1.body for x in ast.walk(st) if isinstance(x, ast.If) and _rejects(x)):
+                        read |= {a.attr.lstrip("_") for a in ast.walk(i.test) if isinstance(a, ast.Attribute) and isinstance(a.value, ast.Name) and a.value.id == v1}
+                    both = sorted(read & written)
+                    if not both:
+                        continue
+                    n += 1
+                    # a rejection comparing the number of distinct elements with the length of the sequence - or a sequence
+                    # that is a set (distinct by construction)
+                    distinct = any(isinstance(a, ast.Assign) and any(isinstance(t, ast.Name) and t.id == s2 for t in a.targets) and (
+                        isinstance(a.value, (ast.Set, ast.SetComp)) or (isinstance(a.value, ast.Call) and dotted_of(a.value.func) in ("set", "frozenset", "dict.fromkeys")))
+                        for a in own_nodes(f.node))
+                    for i in (x for x in own_nodes(f.node) if isinstance(x, ast.If) and _rejects(x) and x.lineno < l2.lineno):
+                        t = norm(i.test)
+                        if isinstance(i.test, ast.Compare) and f"len({s2})" in t and re.search(r"len\((set\(|\{)", t):
+                            distinct = True
+                    ctx.check("R8", f"{f.local}: `{s2}` is checked against {both} and then written per element: repeated elements are rejected", distinct, f, l2,
+                              f"{f.local} validates every element of `{s2}` against {both} and then writes that link per element, but never rejects a repeated "
+                              f"element: the second occurrence passed its check before the first was committed, and ends up with a link (index) that names only "
+                              "one of its positions",
+                              how="validation loop (rejecting test on x.A) + later loop over the same sequence writing x.A; a rejection comparing len(set(...)) with len(sequence)",
+                              construct=f"aliasing between validation and commit over {s2}")
+    ctx.require(n >= 1, "no validate-then-link loop pair found (Node._create_outputs expected)")
+
+
 def run(ctx):
+    rule_r8(ctx)
     rule_r7(ctx)
     rule_per_instance_state(ctx)
     rule_r6(ctx)
